@@ -13,6 +13,7 @@ oracle     implementation only: a call that raised xml.dom.DOMException must lea
            owner rule, its sheet and the argument objects unchanged; objects created read-only must reject every
            mutator with NoModificationAllowedErr and stay unchanged
 """
+import json
 import os
 import xml.dom
 
@@ -24,6 +25,9 @@ from harness import c11_script as cs
 from lib.framework import Check, time_limit
 
 # mutators of objects for which "created read-only" is meaningful are found by the constructor signature
+# region of known finding C11-readonly-unguarded-2: public mutators without the read-only guard
+RO_UNGUARDED_2 = {'SelectorList.__delitem__', 'CSSStyleSheet.cssRules', 'CSSMediaRule.cssRules', 'CSSPageRule.cssRules',
+                  'CSSRule.atkeyword'}
 NO_READONLY_CLASSES = {'Property', '_Namespaces'}
 
 
@@ -38,9 +42,9 @@ class C11(Check):
         'self); its output is tied to the running code by the statement-trace correspondence of this run',
         'the per-site no-raise assumptions listed in gen.ASSUME_NORAISE (each is contradicted by the trace '
         'correspondence if the site ever raises)',
-        'child setters are atomic themselves: a call of a mutator on an object held in a field is modelled as '
-        '"raises with the child unchanged, or changes the child" — justified mutator by mutator by '
-        'all_disciplined_partial (modular argument over the ownership depth), not by a Lean theorem about nesting',
+        'call sites are resolved to child mutators by member name (the tree theorems T11.4 quantify over every '
+        'mutator of the child; the ownership correspondence confirms the function entered on each run); the one '
+        'child-helper site that keeps the assumed contract is justified in gen.ASSUMED_HELPERS',
     )
     assumptions = (
         'cssutils.log.raiseExceptions is True during DOM edits (the library default outside parse*())',
@@ -74,6 +78,16 @@ class C11(Check):
     # -- one case ----------------------------------------------------------------------------------
     def files_index(self, ctx):
         return {os.path.join(ctx.repo, rel): i for i, rel in enumerate(gen.FILES)}
+
+    def entries(self, recs_by_name):
+        """(file index, function name, line of the def) of every extracted mutator -> its member name"""
+        key = id(recs_by_name)
+        if getattr(self, '_entries_key', None) != key:
+            fidx = {rel: i for i, rel in enumerate(gen.FILES)}
+            self._entries = {(fidx[r['where'][0]], r['where'][1], r['where'][2]): r['member']
+                             for r in recs_by_name.values()}
+            self._entries_key = key
+        return self._entries
 
     def script_for(self, recs_by_name, obj, member):
         for k in type(obj).__mro__:
@@ -118,7 +132,9 @@ class C11(Check):
                 selves = [target]
                 if type(target).__name__ == 'Property':
                     selves.append(target.seqs[1])
-                tracer = cr.Tracer(selves, self.files_index(ctx), rec['marks'], rec['extents'])
+                tracer = cr.Tracer(selves, self.files_index(ctx), rec['marks'], rec['extents'],
+                                   callmarks=rec.get('callmarks', ()), entries=self.entries(recs_by_name),
+                                   child_rec=lambda o, mem: self.script_for(recs_by_name, o, mem))
             outcome, exc = cr.call_mutator(target, member, args, tracer)
             after = dom.snapshot(roots)
             fp_after = {f: dom.field_fp(target, f, argnames, ids) for f in fields}
@@ -127,6 +143,7 @@ class C11(Check):
                 'outcome': outcome, 'exc': exc, 'changed': before != after,
                 'diff': dom.diff(before, after) if before != after else [],
                 'trace': tracer.trace if tracer else None, 'rec': rec,
+                'children': tracer.children if tracer else [],
                 'fields_changed': sorted(f for f in fields if fp_before[f] != fp_after[f]),
                 'served': list(fetch.served), 'target_cls': type(target).__name__, 'args': args,
                 'readonly': bool(getattr(target, '_readonly', False)), 'target': target,
@@ -142,6 +159,9 @@ class C11(Check):
                 isinstance(exc, xml.dom.NoModificationAllowedErr) and \
                 'NamespaceURI defined in this rule is used' in str(exc):
             return 'C11-nsinsert-partial-clean'
+        if m == 'CSSStyleSheet._setCssTextWithEncodingOverride' and \
+                self.finding_status.get('C11-encoding-override-internal') == 'known':
+            return 'C11-encoding-override-internal'
         return None
 
     RO_MISSING = set()
@@ -172,10 +192,47 @@ class C11(Check):
             ctx.notes['not_guard_first'] = sorted(n for n, p in infos.items() if p['guarded'] == '0')
         cases = self.corpus_cases(ctx) + self.gen_cases(ctx, by_name)
         pending = []
-        for case in cases:
-            self.one(ctx, case, by_name, index, pending)
+        self.all_cases(ctx, cases, by_name, index, pending)
         self.flush(ctx, pending, index)
+        # statement coverage of the scripts by the observed (and model-reproduced) traces
+        allm = {m for r in recs for m in r['marks']}
+        hit = {m for _c, o, _r, _b, _e, _d, _deep in pending for m in o['trace']}
+        ctx.notes['script_statements'] = len(allm)
+        ctx.notes['script_statements_reached_by_a_trace'] = len(allm & hit)
+        ctx.notes['script_statements_never_reached'] = ['%s:%d' % (gen.FILES[m // 100000], m % 100000)
+                                                        for m in sorted(allm - hit)][:400]
         self.readonly_oracle(ctx, by_name)
+
+    def all_cases(self, ctx, cases, by_name, index, pending):
+        """the implementation stream (build the state, call the mutator under the tracer, snapshots, decision search)
+        runs in forked workers; what a worker would have reported is replayed here in case order, so counts, evidence
+        and verdicts are those of the sequential loop. A case whose worker hung or died is redone in this process."""
+        nproc = int(os.environ.get('VERIF_C11_PROCS', '6'))
+        if nproc <= 1 or len(cases) < 50:
+            for case in cases:
+                self.one(ctx, case, by_name, index, pending)
+            return
+        from lib import pool
+
+        def work(case):
+            rc = _RecCtx(ctx)
+            pend = []
+            self.one(rc, case, by_name, index, pend)
+            slim = [(c, {k: o[k] for k in ('readonly', 'outcome', 'trace', 'fields_changed')}, r['name'], bits, ex, dirty,
+                     deep) for c, o, r, bits, ex, dirty, deep in pend]
+            return json.loads(json.dumps([rc.log, slim], default=str))
+        for case, res in pool.run_cases(work, cases, nproc=nproc, timeout=60.0):
+            if res is None or res[0] != 'ok':
+                ctx.count('pool:redone-in-process')
+                self.one(ctx, case, by_name, index, pending)
+                continue
+            log, slim = res[1]
+            for name, a, kw in log:
+                if name == 'case':
+                    kw['key'] = _tup(kw['key'])
+                getattr(ctx, name)(*a, **kw)
+            for c, o, rname, bits, ex, dirty, deep in slim:
+                pending.append((c, o, by_name[rname], bits, ex, dirty, deep))
 
     def corpus_cases(self, ctx):
         import json
@@ -193,7 +250,7 @@ class C11(Check):
     def gen_cases(self, ctx, by_name):
         rng = ctx.sub_rng('cases')
         cases = []
-        n_sheets = ctx.n(14, 120)
+        n_sheets = ctx.n(11, 120)
         per_mut = ctx.n(3, 4)
         states = [{'sheet': cg.sheet_text(rng)} for _ in range(n_sheets)]
         # a dense fixed state that contains every rule kind
@@ -272,9 +329,17 @@ class C11(Check):
             return
         want = 'ok' if outcome == 'ok' else ('roexc' if obs['readonly'] and
                                              isinstance(obs['exc'], xml.dom.NoModificationAllowedErr) else 'exc')
-        found = cs.find_bits(rec['body'], obs['trace'], want, ro=obs['readonly'])
+        # at the `call f` sites the decisions are fixed by what the child calls really did
+        calls = None
+        if rec.get('callmarks') and all(k['raised'] is not None or k['rec'] is None for k in obs['children']):
+            calls = [bool(k['raised']) for k in obs['children']]
+        found = cs.find_bits(rec['body'], obs['trace'], want, ro=obs['readonly'], calls=calls)
         if found is None and want == 'roexc':
-            found = cs.find_bits(rec['body'], obs['trace'], 'exc', ro=obs['readonly'])
+            found = cs.find_bits(rec['body'], obs['trace'], 'exc', ro=obs['readonly'], calls=calls)
+        if found is None and calls is not None:
+            found = cs.find_bits(rec['body'], obs['trace'], want, ro=obs['readonly'])
+            if found is None and want == 'roexc':
+                found = cs.find_bits(rec['body'], obs['trace'], 'exc', ro=obs['readonly'])
         if found is None:
             if outcome == 'dom' and self.region(case, obs) == 'C11-import-fetch' and False:
                 return
@@ -284,17 +349,90 @@ class C11(Check):
             return
         bits, ex, st = found
         inv = {v: k for k, v in rec['fields'].items()}
-        pending.append((case, obs, rec, bits, ex, [inv[f] for f in st.dirty()]))
+        deep = self.deep_bits(ctx, wit, obs, rec, bits, index) if rec.get('callmarks') and calls is not None else None
+        pending.append((case, obs, rec, bits, ex, [inv[f] for f in st.dirty()], deep))
+
+    def deep_bits(self, ctx, wit, obs, rec, bits, index):
+        """ownership correspondence, two levels: every decision of the target's script taken at a `call f` site is
+        replaced by the number of the child mutator that was really entered there + the decision sequence under
+        which the CHILD's script reproduces the child's own statement trace and way of ending. -> (deep bits,
+        [(script index of the child, its bits, its observed trace, raised)]) or None"""
+        pos = cs.call_positions(rec['body'], bits, ro=obs['readonly'])
+        kids = obs['children']
+        if len(pos) != len(kids):
+            ctx.disagree('child calls observed at the call sites vs `call` statements executed by the script run', wit,
+                         [(k['cls'], k['fn'], '%d:%d' % divmod(k['mark'], 100000)) for k in kids],
+                         '%d call statements on the path of script %s' % (len(pos), rec['name']))
+            return None
+        out, parts, last = [], [], 0
+        for p, k in zip(pos, kids):
+            if k['rec'] is None:
+                ctx.disagree('a call site enters a function of the child that is not an extracted mutator', wit,
+                             {'child': k['cls'], 'function': k['fn'], 'site': '%d:%d' % divmod(k['mark'], 100000)},
+                             'every `call f` runs a script of the table (T11.4)')
+                return None
+            if bool(bits[p]) != bool(k['raised']):
+                ctx.disagree('child raised vs the decision of the parent script at the call site', wit,
+                             {'child': k['rec']['name'], 'raised': k['raised']}, {'decision': bits[p]})
+                return None
+            if k['readonly']:
+                ctx.count('deep:skipped-readonly-child')
+                return None
+            cb = cs.find_bits(k['rec']['body'], k['trace'], 'exc' if k['raised'] else 'ok')
+            if cb is None:
+                ctx.disagree('child script does not admit the statement trace of the child call', wit,
+                             {'child': k['rec']['name'], 'raised': k['raised'],
+                              'trace': ['%d:%d' % divmod(t, 100000) for t in k['trace']]},
+                             'no decision sequence of script %s produces this trace' % k['rec']['name'])
+                return None
+            ci = index[k['rec']['name']]
+            out += list(bits[last:p]) + [True] * ci + [False] + list(cb[0])
+            parts.append((ci, cb[0], k['trace'], k['raised'], k['rec']['name']))
+            last = p + 1
+        out += list(bits[last:])
+        return out, parts
 
     def flush(self, ctx, pending, index):
         if not pending or not ctx.model_ok:
             return
         lines = []
-        for case, obs, rec, bits, ex, dirty in pending:
-            lines.append('run %d %d %d %s' % (index[rec['name']], 1 if obs['readonly'] else 0, 100000,
-                                              ''.join('1' if b else '0' for b in bits) or '-'))
-        out = ctx.driver(lines)
-        for (case, obs, rec, bits, ex, dirty_py), line in zip(pending, out):
+
+        def enc(bits):
+            return ''.join('1' if b else '0' for b in bits) or '-'
+        for case, obs, rec, bits, ex, dirty, deep in pending:
+            lines.append('run %d %d %d %s' % (index[rec['name']], 1 if obs['readonly'] else 0, 100000, enc(bits)))
+        dl = []
+        for case, obs, rec, bits, ex, dirty, deep in pending:
+            if deep and deep[1]:
+                dl.append('deep %d %d %d %s' % (index[rec['name']], 1 if obs['readonly'] else 0, 100000, enc(deep[0])))
+                for ci, cb, ctrace, raised, cname in deep[1]:
+                    dl.append('run %d 0 %d %s' % (ci, 100000, enc(cb)))
+        out = ctx.driver(lines + dl)
+        dout = out[len(lines):]
+        out = out[:len(lines)]
+        di = 0
+        for (case, obs, rec, bits, ex, dirty, deep), line in zip(pending, out):
+            if not (deep and deep[1]):
+                continue
+            wit = {'state': case['state'], 'path': case['path'], 'mutator': case['mutator'], 'args': case['args']}
+            dline = dout[di]
+            di += 1
+            # the two-level run (children really executed in the model) must end, trace and dirty the parent exactly as
+            # the modular run did, with every outcome consumed
+            if dline.split()[:3] != line.split()[:3] or not dline.endswith('left=0'):
+                ctx.disagree('ownership-tree run of the script vs modular run / observed execution', wit,
+                             {'modular': line, 'children': [p[4] for p in deep[1]]}, dline)
+            for ci, cb, ctrace, raised, cname in deep[1]:
+                cl = dout[di]
+                di += 1
+                parts = cl.split()
+                kv = dict(p.split('=') for p in parts[1:])
+                mtrace = [] if kv['trace'] == '-' else [int(x) for x in kv['trace'].split('.')]
+                if (parts[0] in ('exc', 'roexc')) != bool(raised) or mtrace != ctrace:
+                    ctx.disagree('Lean run of the child script vs observed child call', wit,
+                                 {'child': cname, 'raised': raised, 'trace': ctrace}, cl)
+            ctx.count('corr-deep:%d-child-calls' % len(deep[1]))
+        for (case, obs, rec, bits, ex, dirty_py, _deep), line in zip(pending, out):
             wit = {'state': case['state'], 'path': case['path'], 'mutator': case['mutator'], 'args': case['args']}
             parts = line.split()
             mexit = parts[0]
@@ -365,10 +503,18 @@ class C11(Check):
                                                          not getattr(obj, '_readonly', False) and
                                                          self.finding_status.get('C11-value-readonly') == 'known') \
                             else None
+                        if name in RO_UNGUARDED_2 and outcome == 'ok' and \
+                                self.finding_status.get('C11-readonly-unguarded-2') == 'known':
+                            known = 'C11-readonly-unguarded-2'
                         ctx.violate('an object created read-only rejects every mutator and stays unchanged', wit,
                                     {'outcome': outcome, 'exception': type(exc).__name__ if exc else None,
                                      'first_differences': [(p, repr(x)[:120], repr(y)[:120]) for p, x, y in
                                                            dom.diff(before, after)[:3]]}, known=known)
+
+    def search(self, ctx):
+        if os.environ.get('VERIF_C11_NOSEARCH'):      # development aid: report the broken tie at once
+            return
+        super().search(ctx)
 
     # -- known findings / replay ------------------------------------------------------------------------------
     def known(self, ctx, finding):
@@ -414,6 +560,30 @@ class C11(Check):
         pending = []
         self.one(ctx, dict(w, kind='replay'), by_name, index, pending)
         self.flush(ctx, pending, index)
+
+
+def _tup(x):
+    return tuple(_tup(y) for y in x) if isinstance(x, list) else x
+
+
+class _RecCtx:
+    """stands in for the framework context inside a pool worker: records the reports"""
+
+    def __init__(self, ctx):
+        self.repo, self.verif, self.model_ok = ctx.repo, ctx.verif, ctx.model_ok
+        self.log = []
+
+    def case(self, **kw):
+        self.log.append(('case', [], kw))
+
+    def count(self, *a, **kw):
+        self.log.append(('count', list(a), kw))
+
+    def violate(self, *a, **kw):
+        self.log.append(('violate', list(a), kw))
+
+    def disagree(self, *a, **kw):
+        self.log.append(('disagree', list(a), kw))
 
 
 def marks_of(s):
